@@ -569,7 +569,9 @@ fn gen_hard_state_adversarial(rng: &mut Rng) -> String {
     let g = *rng.pick(&crate::gen::GROUPS);
     let nn: f64 = match g { "p1" => 1.0, "p2" | "p1m1" | "p1g1" => 2.0, _ => 4.0 };
     let mono = g == "p1" || g == "p2";
-    let ratio = match rng.below(4) { 0 => rng.range(0.1, 0.3), 1 => rng.range(0.3, 0.6), 2 => 1.0, _ => rng.range(0.5, 1.0) };
+    // ratio > 1 (second side the longer one) is outside what the optimiser reaches but inside what a
+    // state read back from JSON may hold; the properties quantify over all cell parameters
+    let ratio = match rng.below(5) { 0 => rng.range(0.1, 0.3), 1 => rng.range(0.3, 0.6), 2 => 1.0, 3 => rng.range(1.0, 3.0), _ => rng.range(0.5, 1.0) };
     let angle = if mono { match rng.below(4) { 0 => pi / 6.0, 1 => rng.range(pi / 6.0, pi / 3.0), 2 => pi / 2.0, _ => rng.range(pi / 3.0, pi / 2.0) } } else { pi / 2.0 };
     // area per copy a little above the shape's area: length^2 * ratio * sin = nn * A0 * slack
     let a0 = rng.range(2.0, 4.5);
